@@ -531,16 +531,73 @@ def check(prop, tier, seed):
         #    and the functions rs2v.py translates from the current Rust text -> coq/Generated/Code.v
         run([sys.executable, os.path.join(ROOT, 'tools', 'rs2v.py'), REPO], cwd=ROOT, timeout=120)
     else:
-        # VERIF_REPO mode: generate beside the cache and compare with the committed files (the agreement lemmas are not re-run)
-        for tool, fname, group in (('gen_constants.py', 'Constants.v', 'Constants'), ('rs2v.py', 'Code.v', 'CodeAgree')):
-            gp = os.path.join(CACHE, 'gen-' + fname)
-            if os.path.exists(gp):
-                os.remove(gp)
+        # VERIF_REPO mode: the files generated from that working tree go beside the cache; when they differ from the committed
+        # ones the agreement lemmas are re-checked against them in a scratch overlay (logical root RustunT), so that a change
+        # which only renames things is judged by the proofs and not by a textual comparison
+        T = os.path.join(CACHE, 'overlay')
+        shutil.rmtree(T, ignore_errors=True)
+        os.makedirs(os.path.join(T, 'Generated'))
+        os.makedirs(os.path.join(T, 'Proofs'))
+        differs = False
+        for tool, fname in (('gen_constants.py', 'Constants.v'), ('rs2v.py', 'Code.v')):
+            gp = os.path.join(T, 'Generated', fname)
             run([sys.executable, os.path.join(ROOT, 'tools', tool), REPO, gp], cwd=ROOT, timeout=120)
-            same = os.path.exists(gp) and open(gp).read() == open(os.path.join(COQ, 'Generated', fname)).read()
-            if not same and any(cv.startswith(group) for cv in consts):
-                broken.append(dict(obligation='coq/Generated/%s regenerated from this working tree differs from the one the agreement lemmas were checked against (VERIF_REPO mode: lemmas not re-run)' % fname))
-                log('[coq] Generated/%s differs for this working tree' % fname)
+            if not os.path.exists(gp) or open(gp).read() != open(os.path.join(COQ, 'Generated', fname)).read():
+                differs = True
+        if differs and consts:
+            OVER = ['ConstantsCodec', 'ConstantsAgent', 'CodeAgreeCodec', 'CodeAgreeRto', 'CodeAgreeRtt', 'CodeAgreeRaw', 'CodeAgreeReasm']
+
+            def is_over(x):
+                return x.startswith('Generated.') or (x.startswith('Proofs.') and x[len('Proofs.'):] in OVER)
+
+            def retarget(text):
+                def fix(m):
+                    mods = m.group(2).split()
+                    gen = [x for x in mods if is_over(x)]
+                    rest_ = [x for x in mods if not is_over(x)]
+                    if not gen:
+                        return m.group(0)
+                    return (('From Rustun Require %s%s.\n' % (m.group(1), ' '.join(rest_))) if rest_ else '') + 'From RustunT Require %s%s.' % (m.group(1), ' '.join(gen))
+                return re.sub(r'From\s+Rustun\s+Require\s+(Import\s+|Export\s+|)([^.]*(?:\.[A-Za-z][^.]*)*)\.(?=\s)', fix, text)
+            okg = True
+            for fname in ('Constants.v', 'Code.v'):
+                gp = os.path.join(T, 'Generated', fname)
+                gtext = retarget(open(gp).read())
+                open(gp, 'w').write(gtext)
+                rcg, outg = run(['coqc', '-Q', T, 'RustunT', '-Q', COQ, 'Rustun', gp], cwd=T, timeout=600)
+                if rcg != 0:
+                    okg = False
+                    broken.append(dict(obligation='coq/Generated/%s regenerated from this working tree does not compile' % fname, log=outg[-1500:]))
+            failed = set()
+            for cv in OVER:
+                if not okg:
+                    break
+                src_p = os.path.join(T, 'Proofs', cv + '.v')
+                text = open(os.path.join(COQ, 'Proofs', cv + '.v')).read()
+                deps = [d for d in OVER if re.search(r'Proofs\.%s\b' % d, text)]
+                if any(d in failed for d in deps):
+                    failed.add(cv)
+                    continue
+                open(src_p, 'w').write(retarget(text))
+                rcc, outc = run(['coqc', '-Q', T, 'RustunT', '-Q', COQ, 'Rustun', src_p], cwd=T, timeout=900)
+                if cv in consts:
+                    obligations.append('agreement lemmas Proofs/%s.v re-checked against the files generated from this working tree' % cv)
+                if rcc != 0:
+                    failed.add(cv)
+                    m = re.search(r'line (\d+)', outc)
+                    lemma = ''
+                    if m:
+                        src_lines = open(src_p).read().split('\n')
+                        for ln in range(min(int(m.group(1)), len(src_lines)) - 1, -1, -1):
+                            mm = re.match(r'\s*(?:Lemma|Theorem|Example|Definition|Fixpoint)\s+(\w+)', src_lines[ln])
+                            if mm:
+                                lemma = mm.group(1)
+                                break
+                    if cv in consts or any(cv in [d for d in OVER if re.search(r'Proofs\.%s\b' % d, open(os.path.join(COQ, 'Proofs', c2 + '.v')).read())] for c2 in consts):
+                        broken.append(dict(obligation='the generated code / constants of this working tree differ from the model: lemma %s of Proofs/%s.v no longer checks' % (lemma or '?', cv), log=outc[-1500:]))
+                        log('[coq] agreement FAILED against this working tree: lemma %s of Proofs/%s.v' % (lemma or '?', cv))
+                elif cv in consts:
+                    log('[coq] agreement lemmas of Proofs/%s.v hold for the files generated from this working tree' % cv)
         consts = []
     # 1. theorems
     rc, out = coq_make(['Props/%s.vo' % prop] + cfg.get('extra_vo', []))
